@@ -1,7 +1,7 @@
 (* Correspondence check for C08: the real codec functions (replica placement, TTL, volume id,
    file id, ParsePath, super block, index entry, offset) on enumerated, random and malformed
-   inputs.  Known findings: 0 = file id / path with needle key 0 (trig_key0), 1 = TTL integer
-   that is not an encoding (trig_ttl_u32); both triggers are per case and exact (props/C08.v). *)
+   inputs.  Known finding: 1 = TTL integer that is not an encoding (trig_ttl_u32), per case and
+   exact (props/C08.v).  Trigger number 0 (needle key 0) is retired: repaired in the working tree. *)
 From Coq Require Import List NArith ZArith Bool.
 From Coq Require Export Uint63.   (* exported: cases.v uses %uint63 literals *)
 From SW Require Export base.Verdict model.Needle model.Codecs.
@@ -194,8 +194,8 @@ Definition check (c : case) : outcome :=
   | KFidEnc vid key cookie istr back =>
       {| o_corr := bytes_eqb (fid_string vid key cookie) istr && opt_eqb triple_eqb (parse_file_id istr) back;
          o_prop := opt_eqb triple_eqb back (Some (vid, key, cookie));
-         o_trig := if trig_key0 key then Some 0 else None;
-         o_nontrivial := negb (key =? 0) |}
+         o_trig := None;
+         o_nontrivial := true |}
   | KPath s impl =>
       {| o_corr := opt_eqb pair_eqb (parse_path s) impl;
          o_prop := match impl with
@@ -218,8 +218,8 @@ Definition check (c : case) : outcome :=
                    && opt_eqb pair_eqb (parse_path istr) back;
          o_prop := opt_eqb pair_eqb back
                      (Some ((key + match delta with Some d => d | None => 0 end) mod 18446744073709551616, cookie));
-         o_trig := if trig_key0 key then Some 0 else None;
-         o_nontrivial := negb (key =? 0) |}
+         o_trig := None;
+         o_nontrivial := true |}
   | KTtlU32 x back re =>
       {| o_corr := ttl_pair_eqb (load_ttl_u32 x) back && (ttl_to_u32 back =? re);
          (* an integer is decoded only if it is the encoding of the TTL returned *)
